@@ -169,8 +169,11 @@ def r2_affine_invariant(repo=None):
         if not resid:
             r.ok(site, "S' = S+n, G' = %s, N' = r: S'+G'-N' = S+G-N identically" % G2.show())
         elif resid == Lin({"p": 1, "n": 1, "r": -1}):
-            r.ok(site, "S' = S+n, G' = %s, N' = r: invariant preserved iff r = p+n (obligation on the C cursor after a "
-                       "contiguous write, C19.R3)" % G2.show())
+            r.violation(m.rel, q, "gap samples' = %s" % G2.show(),
+                        "the gap is taken from the *requested* index while the next available sample is the value the extension "
+                        "*returns* (r): written + gap = next available holds only if r = p + n, and the library does not move its "
+                        "cursor for an empty array (n = 0, p beyond the cursor: r stays N, the gap counter grows by p - N although "
+                        "no index was skipped); derive the gap from r as the sibling write method does", line=fn.lineno)
         else:
             r.violation(m.rel, q, "S'+G'-N' - (S+G-N) = %s" % resid.show(), "the counter update does not preserve samples written "
                         "+ gap samples = next available sample", line=fn.lineno)
@@ -325,10 +328,10 @@ EXPLANATION = (
     "R1: counters are stored only after the extension call returned normally (C05.R2). R2: the straight-line update after the "
     "extension call is evaluated symbolically as linear forms over the pre-state (S, G, N), the extension's return value r, the "
     "requested index p and the sample count n; required: S' = S+n, N' = r, return r, each counter stored once, and "
-    "S'+G'-N' = S+G-N identically (rf_write_blocks) or up to the residual p+n-r (rf_write, discharged by the C cursor "
-    "obligation). R3: both extension wrappers return hdf5_write_data_object->global_index read after the last library call. "
+    "S'+G'-N' = S+G-N *identically* in both write methods (a gap taken from the requested index p instead of the returned cursor "
+    "r leaves the residual p+n-r, which is non-zero for an empty array written ahead of the cursor: reported). R3: both extension wrappers return hdf5_write_data_object->global_index read after the last library call. "
     "R4: close() caches the three values before deleting the channel object and the getters fall back to them; the C fields "
     "are stored only during file creation. Does NOT decide the value of the C cursor.")
 TECHNIQUE = ('Python ast + clang JSON AST; symbolic linear forms of the counter updates; ordering relative to the extension call; def-use of cached values')
-ASSUMPTIONS = ["the C cursor after a successful contiguous write of n samples at index p is p+n (value-level, not decided)"]
+ASSUMPTIONS = ["the extension's return value is the library's cursor (R3); its value is not decided"]
 FILES = [RF, C_EXT, C_LIB]
